@@ -20,6 +20,7 @@ EXPLANATION = (
     'content and its digests, recorded paths / metadata / note, generated key material, derived keys, the password. Sanitizers: cipher.encrypt (payloads), keyed MAC '
     '(names). The config object and the user-KDF parameters of a key are allowed in clear because their terms contain no source. Plus nonce freshness (a new '
     'os.urandom value inside every encrypt call) and the split of the snapshot body. Rules C05.R1-R3.'
+    ' Added with the seeded-defect rounds: the encryption switch of _make_config is a None test, init uploads the config it built on every successful path.'
 )
 NOT_DECIDED = 'that ciphertext reveals nothing (cryptography); nonce collision probability'
 TRUSTED = ['AEAD confidentiality', 'os.urandom', 'CPython ast']
